@@ -50,10 +50,13 @@ Theorem C07_hash_test_sound : forall st msg st',
 Proof. exact read_err_equiv. Qed.
 Print Assumptions C07_hash_test_sound.
 
-(* Non-vacuity and the reproduced inputs of F5, on a concrete X25519 exchange: rejected-but-usable packets exist
-   (header only = empty noise message, cut inside the ephemeral, cut inside the encrypted static's tag... no: see
-   below, cut inside the payload, corrupted tag) and the genuine message 2 completes after them; the two F5 inputs
-   (40-byte prefix, small-order ephemeral) and a cut inside the encrypted static key mark the machine failed. *)
+(* Non-vacuity and the reproduced inputs of F5, on a concrete X25519 exchange.  Rejected but usable, and the genuine
+   message 2 completes afterwards: header-only packet (empty noise message), cut inside the ephemeral (31 bytes), cut
+   right after the encrypted static (80 bytes: nothing is left for the payload, AEAD refuses, rollback), cut inside
+   the payload ciphertext, junk, too short for a header, wrong subtype.  Marked failed, every later packet
+   refused: cut right after the ephemeral (32), the 40-byte prefix and a cut inside the encrypted static (79) -
+   ErrShortMessage after `e` was hashed - and a small-order ephemeral (DH error).  [wedged_noise_state]: without the
+   repair the noise state after the 40-byte prefix can no longer read the genuine message. *)
 Example C07_nonvacuous :
   C07Ex.completes (snd (process C07Ex.mI1 C07Ex.msg2)) = true /\
   forallb C07Ex.usable_after
